@@ -2414,6 +2414,34 @@ class Generator:
             {'op': 'drain'}, {'op': 'master_cycle'}])
         return {'op': 'presence_down', 'name': name}
 
+    def g_overlapping_blackouts(self, world):
+        """Two blackout patterns cover the same instances; one of the two is
+        cleared, the other stays in force."""
+        apps = sorted({n.split('#')[0] for n in self._scheduled(world)})
+        if not apps:
+            return None
+        app = self.rng.choice(apps)
+        proid = app.split('.')[0]
+        wide = self.rng.choice(['%s.*' % proid, '%s*' % app[:-1], '*'])
+        narrow = self.rng.choice([app, '%s*' % app, '%s.?*' % proid])
+        if wide == narrow:
+            wide = '%s.*' % proid
+        both = [wide, narrow]
+        self.rng.shuffle(both)
+        keep = self.rng.choice(both)
+        self.follow.extend([
+            {'op': 'drain'}, {'op': 'master_cycle'},
+            {'op': 'apps_blacklist', 'patterns': [keep]},
+            {'op': 'drain'}, {'op': 'master_cycle'},
+            {'op': 'advance', 'dt': self.rng.choice([1.0, 61.0])},
+            {'op': 'drain'}, {'op': 'master_cycle'}])
+        if self.rng.random() < 0.5:
+            # built up in two steps
+            self.follow.insert(0, {'op': 'apps_blacklist', 'patterns': both})
+            self.follow.insert(0, {'op': 'drain'})
+            return {'op': 'apps_blacklist', 'patterns': both[:1]}
+        return {'op': 'apps_blacklist', 'patterns': both}
+
     def g_stale_record_failover(self, world):
         """C11: an instance is deleted and the master fails over before it
         hears of it: the stale record is dropped, every other recorded
@@ -2814,6 +2842,7 @@ OP_WEIGHTS = [
     ('lease_squeeze_failover', 3), ('flap_then_place', 5),
     ('resize_mixed', 3), ('frozen_then_presence_lost', 3),
     ('trait_lost_then_place', 3), ('stale_presence_snapshot', 3),
+    ('overlapping_blackouts', 3),
 ]
 
 
